@@ -3,16 +3,23 @@ from vcommon import *
 import scen_common
 
 PID = "C06"
-PROP_V = ["Props/Properties_C06.v", "Props/Properties_C01w.v"]
+PROP_V = ["Props/Properties_C06.v", "Props/Properties_C06w.v"]
 GEN_MODULES = ["Consts", "Sites"]
 FLOW_FILES = ['mu.c', 'mu_wait.c']
 REPLAY_HINT = "VRT_SEED=<seed> [VRT_MODE=<m>] _work/h/muwait_mix"
-PARTIAL = ["the clause 'a release by nsync_mu_unlock_without_wakeup may leave asleep only waiters whose conditions were already false before that critical section began' has no theorem (the kept targets exclude OUnlockNW programs via `no_nw`); it is decided by the muwait_mix bystander oracle (bystander sections change nothing and end with unlock_without_wakeup; every waiter whose condition was made true must still return)",
-           "'alongside cv waiters': MuWaitModel has no cv waiter transferred onto the mutex queue (cv.c:68-110 can enqueue inside the scanner's released-spinlock window); the lock-step tie runs VRT_CV=0 only; cv waiters on the same mutex are covered by the scenario oracles (VRT_CV=1, MODE 3) and by CvModel's abstract mutex",
-           "C06_rings / C06_scan_sound are proved over the pure functions the model's steps call (enqueue with merge at both ends, removal with "
-           "ring repair, one scan round), for queues of any length; RingInv is not yet lifted to an invariant of all reachable worlds",
-           "C06_allfalse_sound and C06_no_stuck are kept as Definitions (_full) with C06_allfalse_partial proved (site by site, which word writes can "
-           "set, clear or keep MU_ALL_FALSE); 'every waiter whose condition became true returns' is decided by the stuck detector"]
+PARTIAL = ["the clause 'a release by nsync_mu_unlock_without_wakeup may leave asleep only waiters whose conditions were already false before that "
+           "critical section began' has no theorem (C06_allfalse_sound is for programs without OUnlockNW: with it the MU_ALL_FALSE claim is violated within "
+           "a few dozen random runs of the extracted model, by design of that call's contract); it is decided by the muwait_mix bystander oracle",
+           "'alongside cv waiters': MuWaitModel has no cv waiter transferred onto the mutex queue (cv.c:68-110 can enqueue inside the scanner's released-spinlock "
+           "window); the lock-step tie runs VRT_CV=0 only; cv waiters on the same mutex are covered by the scenario oracles (VRT_CV=1, MODE 3) and by CvModel's abstract mutex",
+           "PROVED for every reachable world (Properties_C06w, Proof/MuWaitWorld1-5): RingInv of mu->waiters and of every scanner's private lists "
+           "(C06_RingInv_reachable, C06_rings_reachable: rings are runs of adjacent WAIT_CONDITION_EQ-equivalent waiters -- runs, not maximal runs: merges are only "
+           "attempted at enqueue and removal boundaries), the scan never panics (C06_no_scan_panic), and MU_ALL_FALSE is sound: whenever it is set and nobody "
+           "owns the write lock every queued waiter's condition is false in the current protected state (C06_allfalse_sound = the full statement C06_allfalse_full)",
+           "C06_no_stuck_full (no reachable quiescent world with the mutex free and a queued waiter whose condition is true) is NOT proved: proved are "
+           "C06_runnable_clears_allfalse and C06_no_stuck_partial (a lost wake-up world would have MU_ALL_FALSE clear); missing is the designated-waker invariant "
+           "of C02 (MuProof3's HInv) redone for MuWaitModel; 'every waiter whose condition became true returns' is decided by the stuck detector and the "
+           "quiescent-state observer (muwait_mix VRT_OBS)"]
 TRUSTED_BASE = ["Model/MuWaitModel.v control skeleton (mu.c + mu_wait.c incl. the multi-round scan with condition evaluation, ring repair, the "
                 "timeout re-acquisition path): hand-written, validated by lock-step replay with queue AND same_condition-ring snapshots (replay/muwait_replay.ml)"]
 
@@ -24,7 +31,10 @@ def run(tier, seed):
                                                               ("muwait_mix", {"VRT_MODE": 1, "VRT_CV": 0}, 150, 1500),
                                                               ("mu_mix", {}, 150, 1500)], tier, seed)
     specs = [("muwait_mix", {"VRT_MODE": 0}, 4000, 80000), ("muwait_mix", {"VRT_MODE": 1}, 1000, 20000), ("muwait_mix", {"VRT_MODE": 2}, 2500, 50000),
-             ("muwait_mix", {"VRT_MODE": 0}, 800, 15000, "binary"), ("muwait_mix", {"VRT_MODE": 3}, 1500, 30000), ("muwait_mix", {"VRT_MODE": 0, "VRT_FINE": 600}, 1500, 30000)]
+             ("muwait_mix", {"VRT_MODE": 0}, 800, 15000, "binary"), ("muwait_mix", {"VRT_MODE": 3}, 1500, 30000), ("muwait_mix", {"VRT_MODE": 0, "VRT_FINE": 600}, 1500, 30000),
+             # observer thread: in a quiescent world no waiter may be asleep with its condition already made true (a lost wake-up that a timed
+             # waiter's own timeout would mask); OBS=2: every waiter timed with a far deadline
+             ("muwait_mix", {"VRT_MODE": 0, "VRT_OBS": 1}, 1500, 30000), ("muwait_mix", {"VRT_MODE": 0, "VRT_OBS": 2}, 1500, 30000)]
     cov = scen_common.run_scenarios(res, specs, tier, seed, {"C06", "C05"} | scen_common.LIVENESS | scen_common.CRASHES)
     cov["rule"] = ("muwait_mix: 2..4 waiters on {same f+arg, same f+different arg, eq-equivalent args, different f, no condition} in reader/"
                    "writer mode, setters that end with plain nsync_mu_unlock, a bystander using nsync_mu_unlock_without_wakeup after sections "
